@@ -329,4 +329,196 @@ theorem swap_cases (cx : Cx) (ps : List Proof) (outs : List BMsg) (v : Option E)
     · simpa [Proof.row, List.map_map, Function.comp_def] using hnd
     · intro hsa; simpa [hsa] using hv
 
+/-! ## Mint quotes and issuance -/
+
+/-- `GetMintQuoteState` as a function of (tables, Lightning state). -/
+def gmqsSpec (qid : Int) (s : DL) : DL × Except E MintQ :=
+  match dbGetMintQ s.1 qid with
+  | .error _ => (s, .error eQuoteNotExist)
+  | .ok q =>
+    if q.state == .unpaid then
+      match (lnInvStatus s.2 q.hash).2 with
+      | none => ((s.1, (lnInvStatus s.2 q.hash).1), .error (2, "ln"))
+      | some settled =>
+        if settled then
+          if s.1.mintQ.any (·.id == q.id) then
+            (({ s.1 with mintQ := updMintQ s.1.mintQ q.id .paid }, (lnInvStatus s.2 q.hash).1), .ok { q with state := .paid })
+          else ((s.1, (lnInvStatus s.2 q.hash).1), .error (1, "db"))
+        else ((s.1, (lnInvStatus s.2 q.hash).1), .ok q)
+    else (s, .ok q)
+
+theorem getMintQuoteState_runM (qid : Int) (s : DL) : runM (getMintQuoteState qid) s = gmqsSpec qid s := by
+  obtain ⟨db, ln⟩ := s
+  unfold gmqsSpec
+  prog_simp [getMintQuoteState]
+  cases hq : dbGetMintQ db qid with
+  | error e => simp only []; rfl
+  | ok q =>
+    simp only []
+    by_cases hu : (q.state == .unpaid) = true
+    · simp only [hu, if_true]
+      prog_simp [runM_pure]
+      cases hst : (lnInvStatus ln q.hash).2 with
+      | none => simp only []; rfl
+      | some settled =>
+        simp only []
+        by_cases hs : settled = true
+        · simp only [hs, if_true]
+          prog_simp [runM_pure]
+        · simp only [hs]; rfl
+    · simp only [hu]; rfl
+
+
+theorem any_updMintQ (qs : List MintQ) (id id' : Nat) (st : MQState) :
+    (updMintQ qs id st).any (·.id == id') = qs.any (·.id == id') := by
+  unfold updMintQ
+  induction qs with
+  | nil => rfl
+  | cons q rest ih =>
+    simp only [List.map_cons, List.any_cons, ih]
+    congr 1
+    split <;> rfl
+
+/-- Facts about an issuance that succeeded (inner closure of `MintTokens`). -/
+structure MintOk (cx : Cx) (q : MintQ) (outs : List BMsg) (sig : QSig) (s s' : DL) (sigs : List BSig) : Prop where
+  ln : s'.2 = s.2
+  db : s'.1 = { s.1 with mintQ := updMintQ (updMintQ s.1.mintQ q.id .pending) q.id .issued, sigs := s.1.sigs ++ sigs }
+  exists_ : s.1.mintQ.any (·.id == q.id) = true
+  signed : signAll cx.mem outs = .ok sigs
+  amount : ∃ total, amountChecked (outAmounts outs) = some total ∧ ¬ total > q.amount
+  nut20 : quoteSigOk q (outs.map (·.b.sid)) sig = true
+
+theorem mintInner_cases (cx : Cx) (q : MintQ) (outs : List BMsg) (sig : QSig) (s s' : DL) (r : Except E (List BSig))
+    (h : runM (mintInner cx q outs sig) s = (s', r)) :
+    (∃ e, r = .error e ∧ (s' = s ∨ s' = ({ s.1 with mintQ := updMintQ s.1.mintQ q.id .pending }, s.2))) ∨
+    (∃ sigs, r = .ok sigs ∧ MintOk cx q outs sig s s' sigs) := by
+  obtain ⟨db, ln⟩ := s
+  prog_simp [mintInner] at h
+  split at h
+  rotate_left; · left; cases h; exact ⟨_, rfl, Or.inl rfl⟩
+  rename_i hex
+  cases hac : amountChecked (outAmounts outs) with
+  | none => simp only [hac] at h; left; cases h; exact ⟨_, rfl, Or.inr rfl⟩
+  | some total =>
+    simp only [hac] at h
+    prog_simp [runM_pure] at h
+    split at h; · left; cases h; exact ⟨_, rfl, Or.inr rfl⟩
+    split at h; · left; cases h; exact ⟨_, rfl, Or.inr rfl⟩
+    split at h; · left; cases h; exact ⟨_, rfl, Or.inr rfl⟩
+    split at h; · left; cases h; exact ⟨_, rfl, Or.inr rfl⟩
+    rename_i hdup hamt hsigs hnut
+    split at h
+    rotate_left; · left; cases h; exact ⟨_, rfl, Or.inr rfl⟩
+    rename_i sigs hsign
+    simp only [any_updMintQ, hex, if_true] at h
+    obtain ⟨sb, sa, skey, _⟩ := signAll_ok hsign
+    have hsig : insertSigs db.sigs sigs = some (db.sigs ++ sigs) := by
+      apply insertSigs_of
+      · rw [sb]; exact dupOutputs_false (by simpa using hdup)
+      · intro x hx
+        exact getSigs_empty hsigs x.b (by rw [← sb]; exact List.mem_map.2 ⟨x, hx, rfl⟩)
+      · intro x hx; exact isKeyAmount_not_high (skey x hx).2
+    rw [hsig] at h
+    cases h
+    right
+    exact ⟨sigs, rfl, ⟨rfl, rfl, hex, hsign, ⟨total, hac, hamt⟩, by simpa using hnut⟩⟩
+
+
+theorem runM_getMintQuoteState_bind {β : Type} (qid : Int) (f : MintQ → PM β) (s : DL) :
+    runM (getMintQuoteState qid >>= f) s =
+      match (gmqsSpec qid s).2 with
+      | .ok q => runM (f q) (gmqsSpec qid s).1
+      | .error e => ((gmqsSpec qid s).1, .error e) := by
+  rw [runM_bind, getMintQuoteState_runM]
+  generalize gmqsSpec qid s = x
+  obtain ⟨s1, r⟩ := x
+  cases r <;> rfl
+
+theorem runM_liftrun_bind {α β : Type} (p : PM α) (f : Except E α → PM β) (s : DL) :
+    runM ((ExceptT.lift (p.run) : PM (Except E α)) >>= f) s = runM (f (runM p s).2) (runM p s).1 := by
+  rw [runM_bind, runM_lift_run]
+
+theorem updMintQ_updMintQ (qs : List MintQ) (id : Nat) (a b : MQState) :
+    updMintQ (updMintQ qs id a) id b = updMintQ qs id b := by
+  unfold updMintQ
+  simp only [List.map_map]
+  congr 1
+  funext q
+  simp only [Function.comp]
+  by_cases h : (q.id == id) = true <;> simp [h]
+
+/-- Outcome of `MintTokens`, relative to the state after the leading `GetMintQuoteState`. -/
+theorem mintTokens_cases (cx : Cx) (qid : Int) (outs : List BMsg) (sig : QSig) (s s' : DL) (r : Except E (List BSig))
+    (h : runM (mintTokens cx qid outs sig) s = (s', r)) :
+    (∃ e, (gmqsSpec qid s).2 = .error e ∧ r = .error e ∧ s' = (gmqsSpec qid s).1) ∨
+    (∃ q, (gmqsSpec qid s).2 = .ok q ∧
+      ((q.state = .unpaid ∧ r = .error eNotPaid ∧ s' = (gmqsSpec qid s).1) ∨
+       (q.state = .issued ∧ r = .error eAlreadyIssued ∧ s' = (gmqsSpec qid s).1) ∨
+       (q.state = .pending ∧ r = .error eQuotePending ∧ s' = (gmqsSpec qid s).1) ∨
+       (q.state = .paid ∧
+         ((∃ e, r = .error e ∧ s'.2 = (gmqsSpec qid s).1.2 ∧
+             (s'.1 = (gmqsSpec qid s).1.1 ∨
+              s'.1 = { (gmqsSpec qid s).1.1 with mintQ := updMintQ (gmqsSpec qid s).1.1.mintQ q.id .paid })) ∨
+          (∃ sigs, r = .ok sigs ∧ MintOk cx q outs sig (gmqsSpec qid s).1 s' sigs))))) := by
+  simp only [mintTokens] at h
+  rw [runM_getMintQuoteState_bind] at h
+  generalize hg : gmqsSpec qid s = g at h ⊢
+  obtain ⟨s1, r1⟩ := g
+  cases r1 with
+  | error e => left; simp only [] at h; cases h; exact ⟨e, rfl, rfl, rfl⟩
+  | ok q =>
+    right
+    refine ⟨q, rfl, ?_⟩
+    simp only [] at h
+    cases hst : q.state with
+    | unpaid => simp only [hst] at h; left; cases h; exact ⟨rfl, rfl, rfl⟩
+    | issued => simp only [hst] at h; right; left; cases h; exact ⟨rfl, rfl, rfl⟩
+    | pending => simp only [hst] at h; right; right; left; cases h; exact ⟨rfl, rfl, rfl⟩
+    | paid =>
+      simp only [hst] at h
+      right; right; right
+      refine ⟨rfl, ?_⟩
+      rw [runM_liftrun_bind] at h
+      generalize hi : runM (mintInner cx q outs sig) s1 = inner at h
+      obtain ⟨s2, r2⟩ := inner
+      rcases mintInner_cases cx q outs sig s1 s2 r2 hi with ⟨e, rfl, hs2⟩ | ⟨sigs, rfl, hok⟩
+      · left
+        simp only [] at h
+        obtain ⟨db2, ln2⟩ := s2
+        prog_simp [runM_pure] at h
+        split at h
+        · cases h
+          refine ⟨e, rfl, ?_, ?_⟩
+          · rcases hs2 with h2 | h2 <;> (cases h2; rfl)
+          · right
+            rcases hs2 with h2 | h2
+            · cases h2; rfl
+            · cases h2; simp only [updMintQ_updMintQ]
+        · cases h
+          refine ⟨_, rfl, ?_, ?_⟩
+          · rcases hs2 with h2 | h2 <;> (cases h2; rfl)
+          · rename_i hany
+            rcases hs2 with h2 | h2
+            · cases h2; left; rfl
+            · cases h2
+              left
+              simp only [any_updMintQ] at hany
+              -- the quote row does not exist: updMintQ changes nothing
+              have : updMintQ s1.1.mintQ q.id .pending = s1.1.mintQ := by
+                unfold updMintQ
+                conv => rhs; rw [← List.map_id s1.1.mintQ]
+                apply List.map_congr_left
+                intro x hx
+                split
+                · exfalso; apply hany
+                  simp only [List.any_eq_true]
+                  exact ⟨x, hx, ‹_›⟩
+                · rfl
+              simp only [this]
+      · right
+        simp only [] at h
+        cases h
+        exact ⟨sigs, rfl, hok⟩
+
+
 end Gonuts.Model.Mint
